@@ -19,6 +19,7 @@
 #include "tzob.h"
 #include "scale.h"
 #include "bitint.h"
+#include "hash.h"
 
 static char *line;
 static size_t llen;
@@ -295,6 +296,9 @@ main(void)
 			free(a);
 		} else if (!strcmp(cmd, "bi")) {
 			do_bi(p);
+		} else if (!strcmp(cmd, "hash")) {
+			/* hash of the rest of the line (the daemon's task key) */
+			printf("%08x\n", (unsigned)hash(p, strlen(p)));
 		} else {
 			printf("ERR unknown command %s\n", cmd);
 		}
